@@ -62,8 +62,11 @@ func (x xfsEngine) Generate(rng *rand.Rand, prop string, thorough bool) *Plan {
 		cfg.CompMinSeg = []uint32{1, 513}[rng.Intn(2)]
 		cfg.CompFrag = []float32{0.01, 0.1, 0.3}[rng.Intn(3)]
 	}
-	// the initial mapping of fs.OSMMap: shipped 1 GiB, or small enough that files outgrow it and get remapped
-	cfg.MmapInit = []int64{0, 4096, 4096, 8192, 65536}[rng.Intn(5)]
+	// the initial mapping of fs.OSMMap: shipped 1 GiB, or small enough that files outgrow it and get remapped.
+	// The shipped code doubles the mapping ONCE per growth, which is enough because no single write is larger
+	// than the initial mapping (a record is at most 512 MiB + 64 KiB, the mapping at least 1 GiB). The knob keeps
+	// that precondition: it is never set below the largest record of the run (see the sizes below).
+	cfg.MmapInit = []int64{0, 1024, 2048, 4096, 8192, 65536}[rng.Intn(6)]
 	p := &Plan{Property: prop, Engine: "xfs", Cfg: cfg}
 	keys := GenKeys(rng, KeyFamily(cfg.Family), cfg.NKeys, cfg.HashSeed)
 	p.Cfg.NKeys = len(keys)
@@ -80,8 +83,23 @@ func (x xfsEngine) Generate(rng *rand.Rand, prop string, thorough bool) *Plan {
 	if thorough {
 		g.MaxOps = 200
 	}
+	if cfg.MmapInit > 0 && cfg.MmapInit < 8192 && rng.Intn(2) == 0 {
+		g.Sizes = []int{0, 1, 8, 16, 60, 200, 490} // small records: the small mapping settings stay admissible
+	}
 	id := 0
 	ops := GenSeqOps(rng, cfg, g, &id)
+	maxRec := int64(0)
+	for _, op := range ops {
+		if op.K == "put" {
+			if r := int64(op.Size) + 64 + 10; r > maxRec {
+				maxRec = r
+			}
+		}
+	}
+	for cfg.MmapInit > 0 && cfg.MmapInit < maxRec {
+		cfg.MmapInit *= 2
+	}
+	p.Cfg.MmapInit = cfg.MmapInit
 	// unclean shutdowns: a crash marker applies to the operation that follows it
 	ncrash := rng.Intn(3)
 	if x.focus == "C15" {
